@@ -69,7 +69,7 @@ func (g *gen) randValueType() Ty { return valueTypes[g.pick(len(valueTypes))] }
 
 // stmt emits one statement (possibly compound). tail: may this statement end the function with returns.
 func (g *gen) stmt(s *scope, fs *fstate, ind int, depth int) {
-	switch g.pick(34) {
+	switch g.pick(39) {
 	case 0, 1: // x := e
 		t := g.randValueType()
 		e := g.expr(s, t, 2)
@@ -526,6 +526,78 @@ func (g *gen) stmt(s *scope, fs *fstate, ind int, depth int) {
 		g.line(ind+1, "%s = %s", n, g.expr(s, U64, 1))
 		g.line(ind, "}")
 		g.declare(s, Var{Name: n, T: U64, Assignable: true})
+	case 34: // named integer type: conversions, method with a self call, users that only see *NT0
+		p, n, a, b := g.fresh("np"), g.fresh("nt"), g.fresh("v"), g.fresh("v")
+		g.key("named-int")
+		g.line(ind, "%s := new(NT0)", p)
+		g.line(ind, "*%s = NT0(%s)", p, g.expr(s, U64, 1))
+		g.line(ind, "%s := NT0(%s %% 1000)", n, g.expr(s, U64, 1))
+		g.line(ind, "%s := ntBoth(%s) + %s.halvings()", a, p, n)
+		g.line(ind, "%s := ntLoad(%s) + uint64(%s)", b, p, n)
+		g.declare(s, Var{Name: a, T: U64})
+		g.declare(s, Var{Name: b, T: U64})
+	case 35: // constants declared together
+		n := g.fresh("v")
+		g.key("const.multi-name")
+		switch g.pick(4) {
+		case 0:
+			g.line(ind, "%s := useKB(KA)", n)
+		case 1:
+			g.line(ind, "%s := useKA(KB)", n)
+		case 2:
+			g.line(ind, "%s := useKB(%s) + KA", n, g.expr(s, U64, 1))
+		default:
+			g.line(ind, "%s := KB - useKA(%s)", n, g.expr(s, U64, 1))
+		}
+		g.declare(s, Var{Name: n, T: U64})
+	case 36: // struct passed where an interface is expected
+		n := g.fresh("v")
+		g.key("interface.call")
+		switch g.pick(3) {
+		case 0:
+			g.line(ind, "%s := measure(Sq{w: %s})", n, g.expr(s, U64, 1))
+		case 1:
+			r := g.fresh("rc")
+			g.line(ind, "%s := Rc{w: %s, h: %s}", r, g.expr(s, U64, 1), g.expr(s, U64, 1))
+			g.line(ind, "%s := measure(%s) + %s.area()", n, r, r)
+		default:
+			q := g.fresh("sq")
+			g.line(ind, "%s := Sq{w: %s}", q, g.expr(s, U64, 1))
+			g.line(ind, "%s := measure(%s) + measure(Rc{w: %s.scale(3), h: %s})", n, q, q, g.expr(s, U64, 1))
+		}
+		g.declare(s, Var{Name: n, T: U64})
+	case 37: // range over an operand that is not a plain variable
+		bg, t := g.fresh("bg"), g.fresh("v")
+		k, x := g.fresh("lv"), g.fresh("lv")
+		g.key("loop.range-compound")
+		g.line(ind, "%s := &Bag{items: mkItems(%d, %s), n: %s}", bg, 2+g.pick(3), g.expr(s, U64, 1), g.expr(s, U64, 1))
+		g.line(ind, "var %s uint64 = %s.n", t, bg)
+		switch g.pick(4) {
+		case 0:
+			g.line(ind, "for %s, %s := range %s.items {", k, x, bg)
+		case 1:
+			g.line(ind, "for %s, %s := range mkItems(%d, %s) {", k, x, 1+g.pick(3), g.expr(s, U64, 1))
+		case 2:
+			g.line(ind, "for %s, %s := range %s.items[1:] {", k, x, bg)
+		default:
+			g.line(ind, "for %s, %s := range append(%s.items, %s) {", k, x, bg, g.expr(s, U64, 1))
+		}
+		g.line(ind+1, "%s = %s*3 + %s + uint64(%s)", t, t, x, k)
+		g.line(ind, "}")
+		g.declare(s, Var{Name: t, T: U64, Assignable: true})
+	case 38: // one-line branches assigning strings; several results from a call that takes a string
+		sv, a, b := g.fresh("sv"), g.fresh("v"), g.fresh("sv")
+		g.key("str.branch-oneline")
+		g.line(ind, "var %s string = %s", sv, g.expr(s, Str, 1))
+		g.line(ind, "if %s {", g.expr(s, Bool, 1))
+		g.line(ind+1, "%s = %s", sv, g.lit(Str))
+		g.line(ind, "} else {")
+		g.line(ind+1, "%s = %s", sv, g.lit(Str))
+		g.line(ind, "}")
+		g.line(ind, "%s, %s := fmt2(%s, %s)", a, b, g.lit(Str), g.expr(s, U64, 1))
+		g.declare(s, Var{Name: sv, T: Str, Assignable: true})
+		g.declare(s, Var{Name: a, T: U64})
+		g.declare(s, Var{Name: b, T: Str})
 	}
 }
 
